@@ -57,8 +57,11 @@ def gap_iv(g, n, gap, mode, scale, grid, M):
         if gap == "l2_norm":
             return D.interval(g * g, scale * scale, rel_ulps=16, mag=2 ** n * 4 * M * M, tight=True)
         return D.interval(g, scale, rel_ulps=4, mag=2 ** n * 2 * M, tight=True)
-    q = D.quant_int(g, grid)
-    return [q, q]
+    try:
+        q = D.quant_int(g, grid)
+    except D.DriverError:
+        q = 10 ** 7            # an output far off the grid: nothing plausible equals it
+    return [max(-10 ** 7, min(10 ** 7, q))] * 2
 
 
 def main():
